@@ -294,6 +294,11 @@ func forged(cls string, claimed *node, seq int) *peer.SignedMsg {
 		msg, _, _ := pubmessage.NewPubMessage(channel, mk, hash.HashType_HashType_BLAKE3, data)
 		msg.FromPeerId = claimed.id.String()
 		return msg
+	case "attached-key": // signed by mallory, claims the honest sender, carries mallory's key in the optional signature.pub_key field
+		msg, _, _ := pubmessage.NewPubMessage(channel, mk, hash.HashType_HashType_BLAKE3, data)
+		msg.FromPeerId = claimed.id.String()
+		msg.Signature.PubKey, _ = crypto.MarshalPublicKey(mk.GetPublic())
+		return msg
 	case "tamper-body":
 		msg, _, _ := pubmessage.NewPubMessage(channel, mk, hash.HashType_HashType_BLAKE3, data)
 		inner := &pubmessage.PubMessageInner{}
@@ -326,16 +331,20 @@ func forged(cls string, claimed *node, seq int) *peer.SignedMsg {
 	return nil
 }
 
-var forgedClasses = []string{"foreign-claimed", "tamper-body", "retarget-channel", "wrong-context", "empty-channel", "unsubscribed-channel"}
+var injectCount atomic.Int64
+
+var forgedClasses = []string{"foreign-claimed", "attached-key", "tamper-body", "retarget-channel", "wrong-context", "empty-channel", "unsubscribed-channel"}
 
 type mstep struct {
 	A    string   `json:"a"`
 	N    string   `json:"n"`
 	ID   int      `json:"id"`
 	Subs []string `json:"subs"`
+	W    bool     `json:"w"` // wait for the mesh to settle after the step (FloodSubDyn.tla histories)
 }
 type behaviour struct {
 	Topo  [][]string `json:"topo"`
+	Nodes []string   `json:"nodes"` // optional: all nodes (needed when some have no link at the start)
 	Steps []mstep    `json:"steps"`
 }
 
@@ -365,6 +374,9 @@ func runMesh(bi int, b behaviour, le *logrus.Entry, rows *[]map[string]any) {
 	for _, e := range b.Topo {
 		nameSet[e[0]], nameSet[e[1]] = true, true
 	}
+	for _, n := range b.Nodes {
+		nameSet[n] = true
+	}
 	var names []string
 	for n := range nameSet {
 		names = append(names, n)
@@ -374,7 +386,7 @@ func runMesh(bi int, b behaviour, le *logrus.Entry, rows *[]map[string]any) {
 	defer m.close()
 	emit(map[string]any{"e": "reset", "b": bi, "topo": b.Topo, "nodes": names})
 	subs := map[string]bool{}
-	rng := vio.Rand(fmt.Sprintf("mesh/%d", bi))
+	_ = vio.Rand
 	settle := func() {
 		// the Execute loop announces subscription changes on a 100 ms tick
 		time.Sleep(120 * time.Millisecond)
@@ -446,6 +458,7 @@ func runMesh(bi int, b behaviour, le *logrus.Entry, rows *[]map[string]any) {
 			nd.mu.Unlock()
 		})
 	}
+	nextLink := uint64(len(b.Topo) + 100)
 	for _, s := range b.Steps {
 		switch s.A {
 		case "init":
@@ -466,6 +479,17 @@ func runMesh(bi int, b behaviour, le *logrus.Entry, rows *[]map[string]any) {
 				subs[s.N] = true
 			}
 			emit(map[string]any{"e": "toggle", "n": s.N, "on": subs[s.N]})
+			if s.W {
+				checkpoint()
+			}
+		case "linkup":
+			// a link comes up while the mesh is running (FloodSubDyn.tla)
+			nextLink++
+			m.connect(s.Subs[0], s.Subs[1], nextLink)
+			emit(map[string]any{"e": "linkup", "a": s.Subs[0], "b": s.Subs[1]})
+			if s.W {
+				checkpoint()
+			}
 		case "freeze":
 			emit(map[string]any{"e": "freeze"})
 			checkpoint()
@@ -483,7 +507,7 @@ func runMesh(bi int, b behaviour, le *logrus.Entry, rows *[]map[string]any) {
 			// forged frame on the link s.Subs[0] -> s.N
 			from := s.Subs[0]
 			end := m.nodes[s.N].ends[from]
-			cls := forgedClasses[rng.Intn(len(forgedClasses))]
+			cls := forgedClasses[int(injectCount.Add(1))%len(forgedClasses)] // every class is used once there are enough injections
 			pkt := &floodsub.Packet{Publish: []*peer.SignedMsg{forged(cls, m.nodes[from], bi)}}
 			body, _ := pkt.MarshalVT()
 			frame := make([]byte, 4+len(body))
@@ -612,7 +636,55 @@ func runStress(out *vio.Out, le *logrus.Entry) {
 		}
 		n.mu.Unlock()
 	}
+	// gated release: two handlers on one subscription, the first one invoked parks inside the callback; Release is called
+	// meanwhile. No handler may START after Release has returned (the dispatch in progress either completes before Release
+	// returns or is cut short).
+	gatedLate, gatedRounds := 0, 12
+	for r := 0; r < gatedRounds; r++ {
+		sub, err := n.ps.AddSubscription(m.ctx, n.key, channel)
+		if err != nil {
+			vio.Fatal("subscribe: %v", err)
+		}
+		gate := make(chan struct{})
+		entered := make(chan struct{}, 4)
+		var released atomic.Bool
+		var late atomic.Int64
+		var first atomic.Bool
+		h := func(msg pubsub.Message) {
+			if released.Load() {
+				late.Add(1)
+			}
+			if first.CompareAndSwap(false, true) {
+				entered <- struct{}{}
+				<-gate
+			}
+		}
+		sub.AddHandler(h)
+		sub.AddHandler(h)
+		time.Sleep(130 * time.Millisecond) // subscription announced
+		_, _ = ex.Write(frameOf(fmt.Sprintf("gated-%d", r)))
+		select {
+		case <-entered:
+		case <-time.After(2 * time.Second):
+			vio.Fatal("gated release: handler never invoked")
+		}
+		done := make(chan struct{})
+		go func() { sub.Release(); released.Store(true); close(done) }()
+		select {
+		case <-done:
+		case <-time.After(60 * time.Millisecond): // Release waits for the dispatch in progress
+		}
+		close(gate)
+		<-done
+		m.net.quiet(20 * time.Millisecond)
+		time.Sleep(10 * time.Millisecond)
+		if late.Load() > 0 {
+			gatedLate++
+		}
+		time.Sleep(130 * time.Millisecond)
+	}
 	out.Emit(map[string]any{"e": "release", "rounds": rounds, "late_callbacks": after})
+	out.Emit(map[string]any{"e": "gated-release", "rounds": gatedRounds, "late_callbacks": gatedLate})
 	m.close()
 }
 
